@@ -26,9 +26,25 @@
    - the sampling rate and the band edges are not arguments of ANY model function: they
      enter only through the kernel inputs above.
 
-   Contents: S1 argmax/argmin, S2 find_extrema, S3 find_zerox, S4 shape_table (sample rows,
-   integer columns, volt_peak / volt_trough), S5 monotonicity, S6 amp_fraction / ratio_minmax
-   / amp_consistency, S7 checker + non-vacuity, S8 labels. *)
+   Contents:
+     S1 argmax_first_scale / argmin_first_scale
+     S2 find_extrema_scale
+     S3 find_zerox_scale
+     S5 monotonicity_row_scale
+     S7 scale_onb, scale_onb_sound, scale_onb_complete (checker for scale_on)
+     S4 shape_table_scale_samples (Peak), shape_table_scale_samples_trough: same sample rows,
+        same integer and symmetry columns, volt_peak / volt_trough mapped by s
+     S6 amp_fraction_scale, ratio_minmax_scale, amp_consistency_scale (laws on derived columns)
+     S8 labels_cycles_scale, labels_amp_scale
+     S9 (beyond the request) volt_on: s commutes with the two arithmetic expressions of the shape
+        features; shape_table_scale_volts: ALL voltage features mapped by s;
+        compute_features_scale / c10_checked: the whole table of compute_features - same sample
+        rows, same burst features (amp_fraction, amp_consistency, period_consistency,
+        monotonicity, burst_fraction), same labels, voltages mapped by s, same errors - under
+        the single boolean hypothesis c10_hypb
+     Module ScaleExamples: non-vacuity (x * 4, x * 2^-20 pass; x * 3 passes on small integers
+        and fails on a non-dyadic signal, where the features really change in the last place;
+        underflow / overflow / shift fail). *)
 From Coq Require Import List Bool Arith ZArith Lia Floats.PrimFloat Floats.FloatAxioms.
 Import ListNotations.
 From ByC Require Import Base.Result Base.ListAux Base.FloatBase Harness.Compare
@@ -351,6 +367,18 @@ Proof.
     apply eqb_prop in Ha. apply eqb_prop in Hb. split; assumption.
 Qed.
 
+(* the checker is also complete: scale_on is decidable on every concrete input *)
+Theorem scale_onb_complete s vals : scale_on s vals -> scale_onb s vals = true.
+Proof.
+  intro H. unfold scale_onb. apply andb_true_iff. split; [apply andb_true_iff; split|].
+  - apply Leibniz.eqb_spec. exact (so_zero _ _ H).
+  - apply forallb_forall. intros x Hx. apply forallb_forall. intros y Hy.
+    rewrite (so_ltb _ _ H x y Hx Hy), (so_eqb _ _ H x y Hx Hy). rewrite !eqb_reflx. reflexivity.
+  - apply forallb_forall. intros x Hx. apply forallb_forall. intros y Hy.
+    apply forallb_forall. intros v Hv.
+    destruct (so_mid _ _ H x y v Hx Hy Hv) as [Ha Hb]. rewrite Ha, Hb. rewrite !eqb_reflx. reflexivity.
+Qed.
+
 (* ------------------------------------------------------------------------- *)
 (* S4: shape_table - sample rows, integer columns, extremum voltages         *)
 (* ------------------------------------------------------------------------- *)
@@ -431,24 +459,53 @@ Proof.
   rewrite !(Hopp _ (Hat _)). repeat split; reflexivity.
 Qed.
 
-Definition table_scaled (s : float -> float) (r' r : result (list (srow * shape))) : Prop :=
+(* relation between two shape_table results: fail together with the same error, or succeed
+   with identical sample rows and R-related shape rows *)
+Definition table_rel (R : shape -> shape -> Prop) (r' r : result (list (srow * shape))) : Prop :=
   match r', r with
-  | Ok t', Ok t => map fst t' = map fst t /\ Forall2 (shape_scaled s) (map snd t') (map snd t)
+  | Ok t', Ok t => map fst t' = map fst t /\ Forall2 R (map snd t') (map snd t)
   | Err e', Err e => e' = e
   | _, _ => False
   end.
+Definition table_scaled (s : float -> float) := table_rel (shape_scaled s).
+
+Definition post (c : centre) (f : shape) : shape :=
+  match c with Peak => f | Trough => rename_shape f end.
+
+Lemma Forall2_map_same {A B} (R : B -> B -> Prop) (f' f : A -> B) l :
+  (forall x, R (f' x) (f x)) -> Forall2 R (map f' l) (map f l).
+Proof. intro H. induction l as [|x t IH]; cbn [map]; constructor; [apply H | exact IH]. Qed.
+
+(* generic form: any row-wise relation R between the scaled and the unscaled shape row *)
+Lemma shape_table_rel (R : shape -> shape -> Prop) c s raw k' k b :
+  scale_on s (frame c raw) -> frame c (map s raw) = map s (frame c raw) ->
+  k_pos k' = k_pos k -> k_padn k' = k_padn k ->
+  (forall r, R (post c (shape_of (map s (frame c raw)) (k_amp k') r))
+               (post c (shape_of (frame c raw) (k_amp k) r))) ->
+  table_rel R (shape_table c (map s raw) k' b) (shape_table c raw k b).
+Proof.
+  intros H Hfr Hpos Hpad HR. rewrite !shape_table_unfold. rewrite Hfr, Hpos, Hpad.
+  set (sigc := frame c raw) in *. clearbody sigc.
+  rewrite (rows_of_scale s _ _ _ _ H).
+  destruct (rows_of sigc (k_pos k) (k_padn k) b) as [rows|e]; cbn [bind table_rel]; [|reflexivity].
+  destruct rows as [|r0 rs]; cbn [finish table_rel]; [reflexivity|].
+  set (rows := r0 :: rs). clearbody rows.
+  destruct c; rewrite !map_map; cbn [fst snd]; (split; [reflexivity|]); apply Forall2_map_same; exact HR.
+Qed.
 
 Theorem shape_table_scale_samples s raw k' k b :
   scale_on s raw -> k_pos k' = k_pos k -> k_padn k' = k_padn k ->
   table_scaled s (shape_table Peak (map s raw) k' b) (shape_table Peak raw k b).
 Proof.
-  intros H Hpos Hpad. rewrite !shape_table_unfold. cbn [frame]. rewrite Hpos, Hpad.
-  rewrite (rows_of_scale s raw _ _ _ H).
-  destruct (rows_of raw (k_pos k) (k_padn k) b) as [rows|e]; cbn [bind table_scaled]; [|reflexivity].
-  destruct rows as [|r0 rs]; cbn [finish table_scaled]; [reflexivity|].
-  set (rows := r0 :: rs). clearbody rows. rewrite !map_map. cbn [fst snd]. split; [reflexivity|].
-  induction rows as [|r t IH]; cbn [map]; constructor; [|exact IH].
-  apply shape_of_scaled. exact (so_zero _ _ H).
+  intros H Hpos Hpad. apply shape_table_rel; try assumption; [reflexivity|].
+  intro r. cbn [post frame]. apply shape_of_scaled. exact (so_zero _ _ H).
+Qed.
+
+Lemma frame_trough_map s raw :
+  (forall x, In x raw -> s (- x)%float = (- s x)%float) ->
+  frame Trough (map s raw) = map s (frame Trough raw).
+Proof.
+  intro Hopp. cbn [frame]. rewrite !map_map. apply map_ext_in. intros x Hx. symmetry. apply Hopp. exact Hx.
 Qed.
 
 (* trough centring: the frame signal is the negated signal; the scale hypothesis is about the
@@ -459,20 +516,10 @@ Theorem shape_table_scale_samples_trough s raw k' k b :
   k_pos k' = k_pos k -> k_padn k' = k_padn k ->
   table_scaled s (shape_table Trough (map s raw) k' b) (shape_table Trough raw k b).
 Proof.
-  intros H Hopp Hpos Hpad. rewrite !shape_table_unfold. cbn [frame]. rewrite Hpos, Hpad.
-  assert (Hcomm : map PrimFloat.opp (map s raw) = map s (map PrimFloat.opp raw)).
-  { rewrite !map_map. apply map_ext_in. intros x Hx. symmetry. apply Hopp.
-    right. apply in_or_app. left. exact Hx. }
-  rewrite Hcomm. clear Hcomm.
-  assert (Hopp' : forall x, In x (0%float :: map PrimFloat.opp raw) -> s (- x)%float = (- s x)%float).
-  { intros x [Hx|Hx]; apply Hopp; [left; exact Hx | right; apply in_or_app; right; exact Hx]. }
-  clear Hopp. set (sigc := map PrimFloat.opp raw) in *. clearbody sigc.
-  rewrite (rows_of_scale s _ _ _ _ H).
-  destruct (rows_of sigc (k_pos k) (k_padn k) b) as [rows|e]; cbn [bind table_scaled]; [|reflexivity].
-  destruct rows as [|r0 rs]; cbn [finish table_scaled]; [reflexivity|].
-  set (rows := r0 :: rs). clearbody rows. rewrite !map_map. cbn [fst snd]. split; [reflexivity|].
-  induction rows as [|r t IH]; cbn [map]; constructor; [|exact IH].
-  apply rename_shape_scaled; [exact (so_zero _ _ H) | exact Hopp'].
+  intros H Hopp Hpos Hpad. apply shape_table_rel; try assumption.
+  - apply frame_trough_map. intros x Hx. apply Hopp. right. apply in_or_app. left. exact Hx.
+  - intro r. cbn [post frame]. apply rename_shape_scaled; [exact (so_zero _ _ H)|].
+    intros x [Hx|Hx]; apply Hopp; [left; exact Hx | right; apply in_or_app; right; exact Hx].
 Qed.
 
 (* ------------------------------------------------------------------------- *)
@@ -669,3 +716,418 @@ Corollary labels_amp_scale t n mask rows' rows :
   rows' = rows ->
   labels_amp t n (map (burst_fraction_row mask) rows') = labels_amp t n (map (burst_fraction_row mask) rows).
 Proof. intros ->. reflexivity. Qed.
+
+(* ------------------------------------------------------------------------- *)
+(* S9: every voltage feature, and the whole compute_features table           *)
+(* ------------------------------------------------------------------------- *)
+
+(* s commutes with the two arithmetic expressions of compute_shape_features on the values that
+   occur (exact for x * 2^k without overflow / underflow; checkable: volt_onb) *)
+Record volt_on (s : float -> float) (vals : list float) : Prop := {
+  vo_sub : forall x y, In x (0%float :: vals) -> In y (0%float :: vals) ->
+             (s x - s y)%float = s (x - y)%float;
+  vo_amp : forall x y z, In x (0%float :: vals) -> In y (0%float :: vals) -> In z (0%float :: vals) ->
+             (((s x - s y) + (s x - s z)) / 2)%float = s (((x - y) + (x - z)) / 2)%float }.
+
+Lemma volt_on_nil s l : volt_on s l -> volt_on s [].
+Proof.
+  intro H. assert (Hi : forall x, In x [0%float] -> In x (0%float :: l)).
+  { intros x [Hx|[]]. left. exact Hx. }
+  constructor.
+  - intros x y Hx Hy. apply (vo_sub _ _ H); apply Hi; assumption.
+  - intros x y z Hx Hy Hz. apply (vo_amp _ _ H); apply Hi; assumption.
+Qed.
+
+(* C10 for one row of shape features: durations and symmetries identical, every voltage
+   feature mapped by s (band_amp belongs to the external amplitude kernel) *)
+Definition shape_scaled_full (s : float -> float) (f' f : shape) : Prop :=
+  shape_scaled s f' f /\
+  volt_decay f' = s (volt_decay f) /\ volt_rise f' = s (volt_rise f) /\ volt_amp f' = s (volt_amp f).
+
+Lemma at_in sigc i : In (at_ sigc i) (0%float :: sigc).
+Proof.
+  unfold at_. destruct (nth_in_or_default (Z.to_nat i) sigc 0%float) as [H|H];
+    [right; exact H | left; symmetry; exact H].
+Qed.
+
+Lemma post_scaled_full c s sigc amp' amp r :
+  s 0%float = 0%float -> volt_on s sigc ->
+  (c = Trough -> forall x, In x (0%float :: sigc) -> s (- x)%float = (- s x)%float) ->
+  shape_scaled_full s (post c (shape_of (map s sigc) amp' r)) (post c (shape_of sigc amp r)).
+Proof.
+  intros H0 Hv Hopp. split.
+  - destruct c; cbn [post]; [apply shape_of_scaled; exact H0 | apply rename_shape_scaled; [exact H0 | apply Hopp; reflexivity]].
+  - destruct c; cbn [post]; unfold rename_shape, shape_of; cbn [volt_decay volt_rise volt_amp];
+      rewrite !(at_scale s sigc _ H0);
+      (split; [apply (vo_sub _ _ Hv); apply at_in | split; [apply (vo_sub _ _ Hv); apply at_in | apply (vo_amp _ _ Hv); apply at_in]]).
+Qed.
+
+(* the extra law needed for trough centring *)
+Definition centre_ok (c : centre) (s : float -> float) (raw : list float) : Prop :=
+  match c with
+  | Peak => True
+  | Trough => forall x, In x (0%float :: raw ++ map PrimFloat.opp raw) -> s (- x)%float = (- s x)%float
+  end.
+
+Lemma frame_map c s raw : centre_ok c s raw -> frame c (map s raw) = map s (frame c raw).
+Proof.
+  destruct c; intro H; [reflexivity|]. apply frame_trough_map.
+  intros x Hx. apply H. right. apply in_or_app. left. exact Hx.
+Qed.
+
+Theorem shape_table_scale_volts c s raw k' k b :
+  scale_on s (frame c raw) -> volt_on s (frame c raw) -> centre_ok c s raw ->
+  k_pos k' = k_pos k -> k_padn k' = k_padn k ->
+  table_rel (shape_scaled_full s) (shape_table c (map s raw) k' b) (shape_table c raw k b).
+Proof.
+  intros H Hv Hc Hpos Hpad. apply shape_table_rel; try assumption.
+  - apply frame_map. exact Hc.
+  - intro r. apply post_scaled_full; [exact (so_zero _ _ H) | exact Hv |].
+    intros -> x Hx. cbn [centre_ok frame] in *. apply Hc.
+    destruct Hx as [Hx|Hx]; [left; exact Hx | right; apply in_or_app; right; exact Hx].
+Qed.
+
+(* laws on the derived columns of the UNSCALED table (rank of volt_amp; ratios of
+   volt_rise / volt_decay), checkable once the unscaled table has been computed *)
+Record cols_on (s : float -> float) (shapes : list shape) : Prop := {
+  co_cmp : forall x y, In x (map volt_amp shapes) -> In y (map volt_amp shapes) ->
+             (s x <? s y)%float = (x <? y)%float /\ (s x =? s y)%float = (x =? y)%float;
+  co_nan : forall x, In x (map volt_amp shapes) -> isnan (s x) = isnan x;
+  co_ratio : ratio_on s (0%float :: map volt_rise shapes ++ map volt_decay shapes) }.
+
+Definition cols_needed (m : method) (P : Prop) : Prop :=
+  match m with Cycles _ _ => P | Amp _ _ _ => True end.
+
+Definition frow_scaled (s : float -> float) (r' r : frow) : Prop :=
+  r_s r' = r_s r /\ shape_scaled_full s (r_shape r') (r_shape r) /\
+  r_burst r' = r_burst r /\ r_is_burst r' = r_is_burst r.
+
+Definition features_rel (s : float -> float) (r' r : result (list frow)) : Prop :=
+  match r', r with
+  | Ok t', Ok t => Forall2 (frow_scaled s) t' t
+  | Err e', Err e => e' = e
+  | _, _ => False
+  end.
+
+Lemma Forall2_map_eq {A B} (R : A -> A -> Prop) (f g : A -> B) l' l :
+  Forall2 R l' l -> (forall a b, R a b -> f a = g b) -> map f l' = map g l.
+Proof.
+  intros HF H. induction HF as [|a b l' l Hab _ IH]; cbn [map]; [reflexivity|].
+  rewrite (H a b Hab), IH. reflexivity.
+Qed.
+
+Lemma Forall2_nth {A} (R : A -> A -> Prop) l' l d' d i :
+  R d' d -> Forall2 R l' l -> R (nth i l' d') (nth i l d).
+Proof.
+  intros Hd HF. revert i. induction HF as [|a b l' l Hab _ IH]; intro i.
+  - destruct i; exact Hd.
+  - destruct i as [|i]; [exact Hab | apply IH].
+Qed.
+
+(* C10 on the model of compute_features: same sample rows, same burst features, same labels,
+   every voltage feature mapped by s; errors coincide *)
+Theorem compute_features_scale c s raw k' k b m :
+  scale_on s (frame c raw) -> volt_on s (frame c raw) -> centre_ok c s raw -> ltb_on s raw ->
+  k_pos k' = k_pos k -> k_padn k' = k_padn k ->
+  cols_needed m (forall tab, shape_table c raw k b = Ok tab -> cols_on s (map snd tab)) ->
+  features_rel s (compute_features c (map s raw) k' b m) (compute_features c raw k b m).
+Proof.
+  intros H Hv Hc Hlt Hpos Hpad Hcols.
+  pose proof (shape_table_scale_volts c s raw k' k b H Hv Hc Hpos Hpad) as HT.
+  unfold compute_features.
+  destruct (shape_table c (map s raw) k' b) as [tab'|e']; destruct (shape_table c raw k b) as [tab|e];
+    cbn [table_rel] in HT; try contradiction; cbn [bind features_rel]; [|exact HT].
+  destruct HT as [Hrows Hshapes]. rewrite Hrows.
+  assert (Hd : shape_scaled_full s (shape_of [] [] (Build_srow 0 0 0 0 0 0)) (shape_of [] [] (Build_srow 0 0 0 0 0 0))).
+  { apply (post_scaled_full Peak s [] [] [] _ (so_zero _ _ H) (volt_on_nil _ _ Hv)). intro E. discriminate E. }
+  assert (Hshape_i : forall i,
+    shape_scaled_full s
+      (snd (nth i tab' (Build_srow 0 0 0 0 0 0, shape_of [] [] (Build_srow 0 0 0 0 0 0))))
+      (snd (nth i tab (Build_srow 0 0 0 0 0 0, shape_of [] [] (Build_srow 0 0 0 0 0 0))))).
+  { intro i. rewrite <- !(map_nth snd). cbn [snd]. apply Forall2_nth; assumption. }
+  destruct m as [t n | mask t n]; cbn [cols_needed] in Hcols.
+  - specialize (Hcols tab eq_refl). destruct Hcols as [Hcmp Hnan Hratio].
+    assert (Hva : map volt_amp (map snd tab') = map s (map volt_amp (map snd tab))).
+    { rewrite (map_map volt_amp s). apply Forall2_map_eq with (1 := Hshapes). intros a a0 Ha. apply Ha. }
+    assert (Hvr : map volt_rise (map snd tab') = map s (map volt_rise (map snd tab))).
+    { rewrite (map_map volt_rise s). apply Forall2_map_eq with (1 := Hshapes). intros a a0 Ha. apply Ha. }
+    assert (Hvd : map volt_decay (map snd tab') = map s (map volt_decay (map snd tab))).
+    { rewrite (map_map volt_decay s). apply Forall2_map_eq with (1 := Hshapes). intros a a0 Ha. apply Ha. }
+    assert (Hper : map period (map snd tab') = map period (map snd tab)).
+    { apply Forall2_map_eq with (1 := Hshapes). intros a a0 Ha. apply Ha. }
+    rewrite Hva, Hvr, Hvd, Hper.
+    rewrite (amp_fraction_scale s _ Hcmp Hnan).
+    rewrite (amp_consistency_scale s _ _ _ _ (so_zero _ _ H) Hratio).
+    rewrite (map_ext (monotonicity_row (centre_eqb c Peak) (map s raw))
+                     (monotonicity_row (centre_eqb c Peak) raw)).
+    2:{ intro r. apply monotonicity_row_scale. exact Hlt. }
+    destruct (amp_consistency _ _ _ _) as [ac|e]; cbn [bind features_rel]; [|reflexivity].
+    destruct (period_consistency _ _) as [pc|e]; cbn [bind features_rel]; [|reflexivity].
+    destruct (labels_cycles _ _ _) as [lab|e]; cbn [bind features_rel]; [|reflexivity].
+    apply Forall2_map_same. intro i. unfold frow_scaled. cbn [r_s r_shape r_burst r_is_burst].
+    repeat split; try reflexivity; apply Hshape_i.
+  - destruct (labels_amp _ _ _) as [lab|e]; cbn [bind features_rel]; [|reflexivity].
+    apply Forall2_map_same. intro i. unfold frow_scaled. cbn [r_s r_shape r_burst r_is_burst].
+    repeat split; try reflexivity; apply Hshape_i.
+Qed.
+
+(* ------------------------------------------------------------------------- *)
+(* S7 (second half): checkers for the remaining laws, non-vacuity            *)
+(* ------------------------------------------------------------------------- *)
+
+Lemma forallb2_spec {A} (p : A -> A -> bool) l1 l2 :
+  forallb (fun x => forallb (p x) l2) l1 = true -> forall x y, In x l1 -> In y l2 -> p x y = true.
+Proof.
+  intros H x y Hx Hy. rewrite forallb_forall in H. specialize (H x Hx).
+  rewrite forallb_forall in H. apply H. exact Hy.
+Qed.
+
+Definition ltb_onb (s : float -> float) (l : list float) : bool :=
+  forallb (fun x => forallb (fun y => Bool.eqb (s x <? s y)%float (x <? y)%float) l) l.
+
+Lemma ltb_onb_sound s l : ltb_onb s l = true -> ltb_on s l.
+Proof.
+  intros H x y Hx Hy. apply eqb_prop.
+  apply (forallb2_spec (fun x y => Bool.eqb (s x <? s y)%float (x <? y)%float) l l H x y Hx Hy).
+Qed.
+
+Definition opp_onb (s : float -> float) (l : list float) : bool :=
+  forallb (fun x => PrimFloat.Leibniz.eqb (s (- x)%float) (- s x)%float) l.
+
+Lemma opp_onb_sound s l : opp_onb s l = true -> forall x, In x l -> s (- x)%float = (- s x)%float.
+Proof.
+  intros H x Hx. unfold opp_onb in H. rewrite forallb_forall in H.
+  apply Leibniz.eqb_spec. apply H. exact Hx.
+Qed.
+
+Definition centre_okb (c : centre) (s : float -> float) (raw : list float) : bool :=
+  match c with
+  | Peak => true
+  | Trough => opp_onb s (0%float :: raw ++ map PrimFloat.opp raw)
+  end.
+
+Lemma centre_okb_sound c s raw : centre_okb c s raw = true -> centre_ok c s raw.
+Proof. destruct c; cbn [centre_okb centre_ok]; intro H; [exact I | apply opp_onb_sound; exact H]. Qed.
+
+Definition volt_onb (s : float -> float) (vals : list float) : bool :=
+  let v0 := 0%float :: vals in
+  forallb (fun x => forallb (fun y =>
+     PrimFloat.Leibniz.eqb (s x - s y)%float (s (x - y)%float) &&
+     forallb (fun z => PrimFloat.Leibniz.eqb (((s x - s y) + (s x - s z)) / 2)%float
+                                             (s (((x - y) + (x - z)) / 2)%float)) v0) v0) v0.
+
+Lemma volt_onb_sound s vals : volt_onb s vals = true -> volt_on s vals.
+Proof.
+  unfold volt_onb. intro H.
+  pose proof (forallb2_spec _ _ _ H) as H2. cbv beta in H2.
+  constructor.
+  - intros x y Hx Hy. specialize (H2 x y Hx Hy). apply andb_true_iff in H2. destruct H2 as [Ha _].
+    apply Leibniz.eqb_spec. exact Ha.
+  - intros x y z Hx Hy Hz. specialize (H2 x y Hx Hy). apply andb_true_iff in H2. destruct H2 as [_ Hb].
+    rewrite forallb_forall in Hb. apply Leibniz.eqb_spec. apply Hb. exact Hz.
+Qed.
+
+Definition ratio_onb (s : float -> float) (vals : list float) : bool :=
+  forallb (fun x => Bool.eqb (isnan (s x)) (isnan x)) vals &&
+  forallb (fun x => forallb (fun y =>
+     Bool.eqb (s x <? s y)%float (x <? y)%float &&
+     PrimFloat.Leibniz.eqb (s x / s y)%float (x / y)%float) vals) vals.
+
+Lemma ratio_onb_sound s vals : ratio_onb s vals = true -> ratio_on s vals.
+Proof.
+  unfold ratio_onb. intro H. apply andb_true_iff in H. destruct H as [Hn H].
+  rewrite forallb_forall in Hn. pose proof (forallb2_spec _ _ _ H) as H2. cbv beta in H2.
+  constructor.
+  - intros x Hx. apply eqb_prop. apply Hn. exact Hx.
+  - intros x y Hx Hy. specialize (H2 x y Hx Hy). apply andb_true_iff in H2. destruct H2 as [Ha _].
+    apply eqb_prop. exact Ha.
+  - intros x y Hx Hy. specialize (H2 x y Hx Hy). apply andb_true_iff in H2. destruct H2 as [_ Hb].
+    apply Leibniz.eqb_spec. exact Hb.
+Qed.
+
+Definition cols_onb (s : float -> float) (shapes : list shape) : bool :=
+  let va := map volt_amp shapes in
+  forallb (fun x => Bool.eqb (isnan (s x)) (isnan x)) va &&
+  forallb (fun x => forallb (fun y =>
+     Bool.eqb (s x <? s y)%float (x <? y)%float && Bool.eqb (s x =? s y)%float (x =? y)%float) va) va &&
+  ratio_onb s (0%float :: map volt_rise shapes ++ map volt_decay shapes).
+
+Lemma cols_onb_sound s shapes : cols_onb s shapes = true -> cols_on s shapes.
+Proof.
+  unfold cols_onb. intro H. apply andb_true_iff in H. destruct H as [H Hr].
+  apply andb_true_iff in H. destruct H as [Hn H].
+  rewrite forallb_forall in Hn. pose proof (forallb2_spec _ _ _ H) as H2. cbv beta in H2.
+  constructor.
+  - intros x y Hx Hy. specialize (H2 x y Hx Hy). apply andb_true_iff in H2. destruct H2 as [Ha Hb].
+    split; apply eqb_prop; assumption.
+  - intros x Hx. apply eqb_prop. apply Hn. exact Hx.
+  - apply ratio_onb_sound. exact Hr.
+Qed.
+
+(* the complete, decidable hypothesis of C10 for one analysis *)
+Definition c10_hypb (c : centre) (s : float -> float) (raw : list float) (k : kernels) (b : Z) (m : method) : bool :=
+  scale_onb s (frame c raw) && volt_onb s (frame c raw) && centre_okb c s raw && ltb_onb s raw &&
+  match m with
+  | Cycles _ _ => match shape_table c raw k b with Ok tab => cols_onb s (map snd tab) | Err _ => true end
+  | Amp _ _ _ => true
+  end.
+
+Theorem c10_checked c s raw k' k b m :
+  c10_hypb c s raw k b m = true -> k_pos k' = k_pos k -> k_padn k' = k_padn k ->
+  features_rel s (compute_features c (map s raw) k' b m) (compute_features c raw k b m).
+Proof.
+  unfold c10_hypb. intros H Hpos Hpad.
+  apply andb_true_iff in H. destruct H as [H Hm].
+  apply andb_true_iff in H. destruct H as [H Hl].
+  apply andb_true_iff in H. destruct H as [H Hc].
+  apply andb_true_iff in H. destruct H as [Hs Hv].
+  apply compute_features_scale.
+  - apply scale_onb_sound. exact Hs.
+  - apply volt_onb_sound. exact Hv.
+  - apply centre_okb_sound. exact Hc.
+  - apply ltb_onb_sound. exact Hl.
+  - exact Hpos.
+  - exact Hpad.
+  - destruct m as [t n | mask t n]; cbn [cols_needed]; [|exact I].
+    intros tab Etab. rewrite Etab in Hm. apply cols_onb_sound. exact Hm.
+Qed.
+
+(* ------------------------------------------------------------------------- *)
+(* Non-vacuity                                                               *)
+(* ------------------------------------------------------------------------- *)
+
+Module ScaleExamples.
+Import ByC.Proofs.Cycles.
+
+Definition x4 (x : float) : float := (x * 4)%float.
+Definition xsmall (x : float) : float := (x * 0x1p-20)%float.
+Definition x3 (x : float) : float := (x * 3)%float.
+Definition xtenth (x : float) : float := (x * 0x1.999999999999ap-4)%float.   (* 0.1 *)
+
+(* the example signal of Proofs/Cycles.v (small integers) *)
+Example ex_scale_x4 : scale_onb x4 ex_raw = true.
+Proof. vm_compute. reflexivity. Qed.
+Example ex_scale_xsmall : scale_onb xsmall ex_raw = true.
+Proof. vm_compute. reflexivity. Qed.
+(* a factor that is not a power of two happens to pass on this signal: all samples are small
+   integers, so every product and midpoint is exact *)
+Example ex_scale_x3 : scale_onb x3 ex_raw = true.
+Proof. vm_compute. reflexivity. Qed.
+(* ... but 0.1 does not (the products are rounded) *)
+Example ex_scale_xtenth : scale_onb xtenth ex_raw = false.
+Proof. vm_compute. reflexivity. Qed.
+
+Example ex_scale_on_x4 : scale_on x4 ex_raw.
+Proof. apply scale_onb_sound. exact ex_scale_x4. Qed.
+
+Definition ex_x (raw : list float) : ext_in :=
+  {| x_pos := ex_pos; x_raw := raw; x_padn := 0; x_boundary := 0; x_first := FPeak |}.
+
+(* S2 applied: the extrema of the scaled signal are those of the unscaled one, and they exist *)
+Example ex_find_extrema_x4 :
+  find_extrema (ex_x (map x4 ex_raw)) = find_extrema (ex_x ex_raw) /\
+  find_extrema (ex_x ex_raw) = Ok ([10; 18; 26]%Z, [14; 22; 30]%Z).
+Proof.
+  split.
+  - exact (find_extrema_scale x4 (ex_x ex_raw) ex_scale_on_x4).
+  - vm_compute. reflexivity.
+Qed.
+
+(* S3 applied *)
+Example ex_find_zerox_x4 :
+  find_zerox (map x4 ex_raw) [10; 18; 26]%Z [14; 22; 30]%Z = find_zerox ex_raw [10; 18; 26]%Z [14; 22; 30]%Z /\
+  find_zerox ex_raw [10; 18; 26]%Z [14; 22; 30]%Z = Ok ([15; 23]%Z, [11; 19; 27]%Z).
+Proof.
+  split.
+  - exact (find_zerox_scale x4 ex_raw _ _ ex_scale_on_x4).
+  - vm_compute. reflexivity.
+Qed.
+
+(* S4 applied (the amplitude envelope of the scaled run is deliberately different) *)
+Example ex_shape_table_x4 :
+  table_scaled x4 (shape_table Peak (map x4 ex_raw) {| k_pos := ex_pos; k_padn := 0; k_amp := repeat 4%float 40 |} 0)
+                  (shape_table Peak ex_raw ex_k 0).
+Proof. apply shape_table_scale_samples; [exact ex_scale_on_x4 | reflexivity | reflexivity]. Qed.
+
+(* a richer signal: ten periods of the same wave, centred on zero, with non-dyadic cycle
+   amplitudes 0.1, 0.3, 0.25, 0.7, 0.45, 0.9, 0.33, 0.5, 0.61, 0.2: the table has seven rows,
+   five interior ones with genuine amplitude-consistency ratios, and a non-trivial labelling *)
+Definition sc_amps : list float :=
+  [0x1.999999999999ap-4; 0x1.3333333333333p-2; 0x1p-2; 0x1.6666666666666p-1; 0x1.ccccccccccccdp-2;
+   0x1.ccccccccccccdp-1; 0x1.51eb851eb851fp-2; 0x1p-1; 0x1.3851eb851eb85p-1; 0x1.999999999999ap-3]%float.
+Definition sc_raw : list float :=
+  map (fun i => ((nth (Nat.modulo i 8) ex_wave 0 - 4) * nth (Nat.div i 8) sc_amps 0)%float) (seq 0 80).
+Definition sc_pos : list bool := map (fun i => Nat.ltb (Nat.modulo i 8) 4) (seq 0 80).
+Definition sc_k : kernels := {| k_pos := sc_pos; k_padn := 0; k_amp := repeat 1%float 80 |}.
+Definition sc_k' : kernels := {| k_pos := sc_pos; k_padn := 0; k_amp := repeat 4%float 80 |}.
+Definition sc_kt : kernels := {| k_pos := map negb sc_pos; k_padn := 0; k_amp := repeat 1%float 80 |}.
+Definition sc_thr : thr4 :=
+  {| t_af := 0x1p-2; t_ac := 0x1p-2; t_pc := 0x1p-1; t_mo := 0x1p-1 |}%float.
+Definition sc_m : method := Cycles sc_thr 2.
+
+Example sc_hyp_x4 : c10_hypb Peak x4 sc_raw sc_k 0 sc_m = true.
+Proof. vm_compute. reflexivity. Qed.
+Example sc_hyp_x4_trough : c10_hypb Trough x4 sc_raw sc_kt 0 sc_m = true.
+Proof. vm_compute. reflexivity. Qed.
+Example sc_hyp_xsmall : c10_hypb Peak xsmall sc_raw sc_k 0 sc_m = true.
+Proof. vm_compute. reflexivity. Qed.
+(* the hypothesis is not trivially true: it fails for a non-dyadic factor, for a factor that
+   pushes the samples into the subnormal range, for one that overflows, and for a shift *)
+Example sc_hyp_x3 : scale_onb x3 sc_raw = false /\ volt_onb x3 sc_raw = false.
+Proof. split; vm_compute; reflexivity. Qed.
+Example sc_hyp_underflow : scale_onb (fun x => (x * 0x1p-1060)%float) sc_raw = false.
+Proof. vm_compute. reflexivity. Qed.
+Example sc_hyp_overflow : scale_onb (fun x => (x * 0x1p1023)%float) sc_raw = false.
+Proof. vm_compute. reflexivity. Qed.
+Example sc_hyp_shift : scale_onb (fun x => (x + 1)%float) sc_raw = false.
+Proof. vm_compute. reflexivity. Qed.
+
+(* C10 on this input, by the checked theorem; the unscaled table has 7 rows, 5 of them bursts *)
+Example sc_features_x4 :
+  features_rel x4 (compute_features Peak (map x4 sc_raw) sc_k' 0 sc_m) (compute_features Peak sc_raw sc_k 0 sc_m) /\
+  rmap (map r_is_burst) (compute_features Peak sc_raw sc_k 0 sc_m) =
+    Ok [false; true; true; true; true; true; false].
+Proof.
+  split.
+  - apply c10_checked; [exact sc_hyp_x4 | reflexivity | reflexivity].
+  - vm_compute. reflexivity.
+Qed.
+
+Example sc_features_x4_trough :
+  features_rel x4 (compute_features Trough (map x4 sc_raw) sc_kt 0 sc_m) (compute_features Trough sc_raw sc_kt 0 sc_m) /\
+  rmap (@length frow) (compute_features Trough sc_raw sc_kt 0 sc_m) = Ok 8.
+Proof.
+  split.
+  - apply c10_checked; [exact sc_hyp_x4_trough | reflexivity | reflexivity].
+  - vm_compute. reflexivity.
+Qed.
+
+(* Why a hypothesis is needed at all: for the factor 3 the amplitude consistency of one
+   interior cycle of this signal changes in the last place (the scaled rise and decay voltages
+   are rounded), so "unchanged" is literally false on binary64 for a non-dyadic constant; the
+   implementation is invariant only up to rounding there.  Row-wise exact agreement of the four
+   burst features and the label between the x3 run and the unscaled run: *)
+Definition burst_rows_agree (a b : result (list frow)) : list bool :=
+  match a, b with
+  | Ok x, Ok y =>
+    map (fun p => let b1 := r_burst (fst p) in let b2 := r_burst (snd p) in
+                  fexact (b_af b1) (b_af b2) && fexact (b_ac b1) (b_ac b2) && fexact (b_pc b1) (b_pc b2) &&
+                  fexact (b_mo b1) (b_mo b2) && Bool.eqb (r_is_burst (fst p)) (r_is_burst (snd p)))
+        (combine x y)
+  | _, _ => []
+  end.
+Example sc_x3_not_exactly_invariant :
+  burst_rows_agree (compute_features Peak (map x3 sc_raw) sc_k 0 sc_m) (compute_features Peak sc_raw sc_k 0 sc_m)
+  = [true; true; true; true; true; false; true] /\
+  burst_rows_agree (compute_features Peak (map x4 sc_raw) sc_k 0 sc_m) (compute_features Peak sc_raw sc_k 0 sc_m)
+  = [true; true; true; true; true; true; true].
+Proof. split; vm_compute; reflexivity. Qed.
+
+End ScaleExamples.
+
+Print Assumptions find_extrema_scale.
+Print Assumptions find_zerox_scale.
+Print Assumptions scale_onb_sound.
+Print Assumptions ratio_minmax_scale.
+Print Assumptions compute_features_scale.
+Print Assumptions c10_checked.
